@@ -100,7 +100,8 @@ def lt_length(lt: LT, abs_len: Callable[[Abs], z3.ArithRef]) -> z3.ArithRef:
             if s.body.is_concrete():
                 total = total + z3.If(s.n > 0, s.n, 0) * len(s.body.segs)
             else:
-                raise ShapeMismatch("length of a map segment with a variable-size body")
+                # sum of symbolic lengths: an uninterpreted non-negative integer (only ever used for logging)
+                total = total + abs_len(s)
         elif isinstance(s, Abs):
             total = total + abs_len(s)
     return total
@@ -159,6 +160,9 @@ def lt_equal(a: LT, b: LT, eq: Callable[[Any, Any], z3.BoolRef], subst: Callable
     """Segment-wise equality of two list terms as a z3 formula; raises ShapeMismatch when they cannot be aligned.
     `subst(value, ivar, term)` substitutes a binder; `implied(c1, c2)` asks whether two guards are equivalent."""
     sa, sb = _normalize(a, eq, implied), _normalize(b, eq, implied)
+    if not sa or not sb:
+        # one side is the empty list: equal iff the other one is empty too (decided by the solver)
+        return lt_empty(LT(sa or sb), lambda ab: z3.BoolVal(False))
     if len(sa) != len(sb):
         raise ShapeMismatch(f"different number of segments: {len(sa)} vs {len(sb)}:\n  {sa}\n  {sb}")
     conj = []
@@ -212,8 +216,8 @@ def _normalize(lt: LT, eq, implied) -> List[Any]:
             if z3.is_true(c):
                 out.extend(_normalize(s.lt, eq, implied))
                 continue
-            if z3.is_false(c) or not s.lt.segs:
-                continue
+            if z3.is_false(c) or not s.lt.segs or implied(c, z3.BoolVal(False)):
+                continue  # literally false, nothing guarded, or impossible on this path
             inner = LT(_normalize(s.lt, eq, implied))
             if out and isinstance(out[-1], Guard) and _same_shape(out[-1].lt, inner):
                 try:
@@ -226,7 +230,10 @@ def _normalize(lt: LT, eq, implied) -> List[Any]:
                     continue
             out.append(Guard(c, inner))
         elif isinstance(s, MapSeg):
-            out.append(MapSeg(s.ivar, s.n, LT(_normalize(s.body, eq, implied)), s.src))
+            body = LT(_normalize(s.body, eq, implied))
+            if not body.segs or implied(s.n > 0, z3.BoolVal(False)):
+                continue  # nothing is produced per element, or there is provably no element
+            out.append(MapSeg(s.ivar, s.n, body, s.src))
         else:
             out.append(s)
     return out
